@@ -36,48 +36,39 @@ func reg(names string, f intrFn) {
 func sv(v Value) StrV { return v.(StrV) }
 func tv(v Value) *smt.Term { return v.(*smt.Term) }
 
-func (m *M) freshStr(hint string) *smt.Term {
-	m.st.NextObj++
-	v := smt.Var(fmt.Sprintf("s_%s_%d", hint, m.st.NextObj), smt.String)
-	m.st.PC = append(m.st.PC, smt.StrInRe(v, smt.ReStar(smt.ReAllChar())))
-	return v
-}
-
 func init() {
 	nop := func(m *M, fn *ssa.Function, a []Value, retTo ssa.Value) Value { return zeroResults(fn) }
 
-	// ----- strings -----
+	// ----- strings (bounded byte-vector strings, see bstr.go) -----
 	reg("strings.HasPrefix", func(m *M, fn *ssa.Function, a []Value, r ssa.Value) Value {
-		return smt.StrPrefixOf(sv(a[1]).Term(), sv(a[0]).Term())
+		return bHasPrefix(sv(a[0]), sv(a[1]))
 	})
 	reg("strings.HasSuffix", func(m *M, fn *ssa.Function, a []Value, r ssa.Value) Value {
-		return smt.StrSuffixOf(sv(a[1]).Term(), sv(a[0]).Term())
+		return bHasSuffix(sv(a[0]), sv(a[1]))
 	})
 	reg("strings.Contains", func(m *M, fn *ssa.Function, a []Value, r ssa.Value) Value {
-		return smt.StrContains(sv(a[0]).Term(), sv(a[1]).Term())
+		return bContains(sv(a[0]), sv(a[1]))
 	})
 	reg("strings.Index", func(m *M, fn *ssa.Function, a []Value, r ssa.Value) Value {
-		return smt.Int2BV(64, smt.StrIndexOf(sv(a[0]).Term(), sv(a[1]).Term(), smt.IntC(0)))
+		return bIndex(sv(a[0]), sv(a[1]))
 	})
 	reg("strings.IndexByte", func(m *M, fn *ssa.Function, a []Value, r ssa.Value) Value {
-		c := tv(a[1])
-		return smt.Int2BV(64, smt.StrIndexOf(sv(a[0]).Term(), smt.StrFromCode(smt.BV2Nat(c)), smt.IntC(0)))
+		return bIndex(sv(a[0]), strB([]*smt.Term{tv(a[1])}))
 	})
 	reg("strings.TrimSuffix", func(m *M, fn *ssa.Function, a []Value, r ssa.Value) Value {
-		s, suf := sv(a[0]).Term(), sv(a[1]).Term()
-		if s.IsConst() && suf.IsConst() {
-			return strC(strings.TrimSuffix(s.S, suf.S))
+		s, suf := sv(a[0]), sv(a[1])
+		has := bHasSuffix(s, suf)
+		nl := smt.Ite(has, smt.BVSub(bLen(s), bLen(suf)), bLen(s))
+		if nl.IsConst() {
+			return strB(s.Bytes[:int(nl.U)])
 		}
-		l := smt.IntSub(smt.StrLen(s), smt.StrLen(suf))
-		return strT(smt.Ite(smt.StrSuffixOf(suf, s), smt.StrSubstr(s, smt.IntC(0), l), s))
+		return StrV{IsB: true, Bytes: s.Bytes, Len: nl}
 	})
 	reg("strings.TrimPrefix", func(m *M, fn *ssa.Function, a []Value, r ssa.Value) Value {
-		s, pre := sv(a[0]).Term(), sv(a[1]).Term()
-		if s.IsConst() && pre.IsConst() {
-			return strC(strings.TrimPrefix(s.S, pre.S))
-		}
-		l := smt.IntSub(smt.StrLen(s), smt.StrLen(pre))
-		return strT(smt.Ite(smt.StrPrefixOf(pre, s), smt.StrSubstr(s, smt.StrLen(pre), l), s))
+		s, pre := sv(a[0]), sv(a[1])
+		has := bHasPrefix(s, pre)
+		lo := smt.Ite(has, bLen(pre), lc(0))
+		return bSlice(s, lo, bLen(s))
 	})
 	trim := func(right, left bool) intrFn {
 		return func(m *M, fn *ssa.Function, a []Value, r ssa.Value) Value {
@@ -87,73 +78,42 @@ func init() {
 				abortf("strings.Trim* with symbolic cutset")
 			}
 			cs := cut.ConstVal()
-			if s.IsConst() {
-				switch {
-				case right && left:
-					return strC(strings.Trim(s.ConstVal(), cs))
-				case right:
-					return strC(strings.TrimRight(s.ConstVal(), cs))
-				default:
-					return strC(strings.TrimLeft(s.ConstVal(), cs))
+			for i := 0; i < len(cs); i++ {
+				if cs[i] >= 0x80 {
+					abortf("strings.Trim* with non-ASCII cutset")
 				}
 			}
 			if cs == "" {
 				return s
 			}
-			var chars []*smt.Term
-			for i := 0; i < len(cs); i++ {
-				if cs[i] >= 0x80 {
-					abortf("strings.Trim* with non-ASCII cutset")
-				}
-				chars = append(chars, smt.ReStr(smt.StrC(cs[i:i+1])))
-			}
-			set := smt.ReStar(smt.ReUnion(chars...))
-			res := m.freshStr("trim")
-			var parts []*smt.Term
-			var cons []*smt.Term
-			if left {
-				p := m.freshStr("trimL")
-				cons = append(cons, smt.StrInRe(p, set))
-				parts = append(parts, p)
-			}
-			parts = append(parts, res)
 			if right {
-				t := m.freshStr("trimR")
-				cons = append(cons, smt.StrInRe(t, set))
-				parts = append(parts, t)
+				s = bTrimRight(s, cs)
 			}
-			cons = append(cons, smt.Eq(s.Term(), smt.StrConcat(parts...)))
-			for i := 0; i < len(cs); i++ {
-				if right {
-					cons = append(cons, smt.Not(smt.StrSuffixOf(smt.StrC(cs[i:i+1]), res)))
-				}
-				if left {
-					cons = append(cons, smt.Not(smt.StrPrefixOf(smt.StrC(cs[i:i+1]), res)))
-				}
+			if left {
+				s = bTrimLeft(s, cs)
 			}
-			m.st.PC = append(m.st.PC, cons...)
-			return strT(res)
+			return s
 		}
 	}
 	reg("strings.TrimRight", trim(true, false))
 	reg("strings.TrimLeft", trim(false, true))
 	reg("strings.Trim", trim(true, true))
+	reg("strings.TrimSpace", func(m *M, fn *ssa.Function, a []Value, r ssa.Value) Value {
+		m.ex.noteAssumption("strings.TrimSpace: ASCII white space only")
+		return bTrimLeft(bTrimRight(sv(a[0]), " \t\n\v\f\r"), " \t\n\v\f\r")
+	})
 	caseConv := func(lower bool) intrFn {
 		return func(m *M, fn *ssa.Function, a []Value, r ssa.Value) Value {
 			s := sv(a[0])
-			if s.IsConst() {
-				if lower {
-					return strC(strings.ToLower(s.ConstVal()))
-				}
-				return strC(strings.ToUpper(s.ConstVal()))
-			}
-			bs := m.strBytes(s)
-			out := make([]*smt.Term, len(bs))
-			for i, b := range bs {
-				// ASCII only (non-ASCII bytes: unicode case mapping outside the model)
-				if !m.Decide(smt.BVUlt(b, smt.BVC(8, 128))) {
-					m.ex.noteAssumption("strings.ToLower/ToUpper on non-ASCII bytes is outside the model (path dropped)")
-					panic(dropPath{why: "non-ASCII case conversion"})
+			out := make([]*smt.Term, len(s.Bytes))
+			for i, b := range s.Bytes {
+				if !b.IsConst() || b.U >= 128 {
+					// ASCII only (non-ASCII bytes: unicode case mapping outside the model)
+					inRange := smt.Or(smt.BVUle(bLen(s), lc(i)), smt.BVUlt(b, smt.BVC(8, 128)))
+					if !m.Decide(inRange) {
+						m.ex.noteAssumption("strings.ToLower/ToUpper on non-ASCII bytes is outside the model (path dropped)")
+						panic(dropPath{why: "non-ASCII case conversion"})
+					}
 				}
 				if lower {
 					isU := smt.And(smt.BVUle(smt.BVC(8, 'A'), b), smt.BVUle(b, smt.BVC(8, 'Z')))
@@ -163,7 +123,7 @@ func init() {
 					out[i] = smt.Ite(isL, smt.BVSub(b, smt.BVC(8, 32)), b)
 				}
 			}
-			return strB(out)
+			return StrV{IsB: true, Bytes: out, Len: s.Len}
 		}
 	}
 	reg("strings.ToLower", caseConv(true))
@@ -196,37 +156,24 @@ func init() {
 			limit = constInt(a[2])
 		}
 		var parts []Value
-		if s.IsConst() {
-			for _, p := range strings.SplitN(s.ConstVal(), sep.ConstVal(), limit) {
-				parts = append(parts, strC(p))
+		rest := s
+		for {
+			if limit > 0 && len(parts) == limit-1 {
+				break
 			}
-		} else {
-			rest := s.Term()
-			sp := smt.StrC(sep.ConstVal())
-			for {
-				if limit > 0 && len(parts) == limit-1 {
-					break
-				}
-				if len(parts) > m.ex.Cfg.MaxStrLen+1 {
-					panic(dropPath{why: "split bound"})
-				}
-				if !m.Decide(smt.StrContains(rest, sp)) {
-					break
-				}
-				i := smt.StrIndexOf(rest, sp, smt.IntC(0))
-				head := smt.StrSubstr(rest, smt.IntC(0), i)
-				off := smt.IntAdd(i, smt.IntC(int64(len(sep.ConstVal()))))
-				tail := smt.StrSubstr(rest, off, smt.IntSub(smt.StrLen(rest), off))
-				parts = append(parts, strT(head))
-				rest = tail
+			if len(parts) > len(s.Bytes)+1 {
+				panic(dropPath{why: "split bound"})
 			}
-			parts = append(parts, strT(rest))
+			if !m.Decide(bContains(rest, sep)) {
+				break
+			}
+			i := smt.Extract(lw-1, 0, bIndex(rest, sep))
+			parts = append(parts, bSlice(rest, lc(0), i))
+			rest = bSlice(rest, smt.BVAdd(i, bLen(sep)), bLen(rest))
 		}
+		parts = append(parts, rest)
 		id := m.st.alloc(&ArrayV{E: parts}, nil)
 		return SliceV{Obj: id, Len: len(parts), Cap: len(parts)}
-	})
-	reg("strings.ReplaceAll", func(m *M, fn *ssa.Function, a []Value, r ssa.Value) Value {
-		return strT(smt.StrReplaceAll(sv(a[0]).Term(), sv(a[1]).Term(), sv(a[2]).Term()))
 	})
 
 	// ----- sync -----
@@ -405,12 +352,9 @@ func (m *M) fmtInt(t *smt.Term, signed bool) StrV {
 		}
 		return strC(fmt.Sprintf("%d", t.U))
 	}
-	name := "fmt_d_" + fmt.Sprint(t.Sort.W)
-	if signed {
-		name += "s"
-	}
-	m.ex.noteAssumption("decimal formatting of symbolic integers is an uninterpreted function")
-	return strT(smt.App(name, smt.String, t))
+	m.ex.noteAssumption("decimal formatting of symbolic integers yields an opaque string (messages only)")
+	m.st.NextObj++
+	return strC(fmt.Sprintf("<int#%d>", m.st.NextObj))
 }
 
 func (m *M) fmtValue(v Value, verb byte) StrV {
@@ -439,7 +383,8 @@ func (m *M) fmtValue(v Value, verb byte) StrV {
 					}
 					return strC("false")
 				}
-				return strT(smt.Ite(x, smt.StrC("true"), smt.StrC("false")))
+				m.st.NextObj++
+				return strC(fmt.Sprintf("<bool#%d>", m.st.NextObj))
 			}
 		}
 	}
